@@ -5,7 +5,9 @@ open Ak Ak.Proto Ghist
 
 /-!
 `ord <id>@<deps> …`                       → `ok <sorted ids>` | `err ValueError`
-`col <remote> <id>@<deps>@<commits>@<refs> …` (repositories in the order supplied)
+`col <remote> <id>@<deps>@<commits>@<refs>@<mode> …` (repositories in the order supplied; `mode` = `t`: builds are
+detected by tags, `s`: by the number saved in the version file)
+an entry `<id>@!` in either request is a supplied path whose id has no repository class: the constructor skips it
 * deps    : comma list of repository ids or `-`
 * commits : `;`-separated `parents:tags:match:time:saved:pins` (`tags` = `+`-separated tag names as code points or `-`;
             `time` = commit time in seconds; `saved` = `major.minor` of the commit's version file or `-`; `pins` =
@@ -41,17 +43,48 @@ def parsePin (s : String) : Option (Nat × Ver) :=
 def parsePins (s : String) : Option Pins :=
   if s = "-" then some [] else (s.splitOn "+").mapM parsePin
 
-def parseCommit (s : String) : Option (Commit Pins) :=
+structure PCommit where
+  parents : List Nat
+  tagNames : List (List Char)
+  isMatch : Bool
+  time : Nat
+  saved : List Nat          -- numbers of the version file: none, major.minor, or major.minor.patch
+  pins : Pins
+
+def parseNums (s : String) : Option (List Nat) :=
+  if s = "-" then some [] else (s.splitOn ".").mapM (·.toNat?)
+
+def parseCommit (s : String) : Option PCommit :=
   match s.splitOn ":" with
   | [p, t, m, ts, sv, q] =>
-    match parseNatList p, parseTagNames t, m.toNat?, ts.toNat?, parseSaved sv, parsePins q with
+    match parseNatList p, parseTagNames t, m.toNat?, ts.toNat?, parseNums sv, parsePins q with
     | some ps, some tg, some k, some time, some saved, some pins =>
-      match (RawCommit.toCommit { parents := ps, tagNames := tg, saved := saved, isMatch := k != 0, pins := pins,
-                                  time := time }) with
-      | .ok c => some c
-      | .error _ => none        -- a build tag that needs the saved version of a commit that has none: refused
+      some { parents := ps, tagNames := tg, isMatch := k != 0, time := time, saved := saved, pins := pins }
     | _, _, _, _, _, _ => none
   | _ => none
+
+/-- tag mode: build tags + major.minor of the version file -/
+def tagCommit (c : PCommit) : Option (Commit Pins) :=
+  let saved : Option (Option (Nat × Nat)) :=
+    match c.saved with
+    | [] => some none
+    | [a, b] => some (some (a, b))
+    | _ => none
+  match saved with
+  | none => none
+  | some sv =>
+    match (RawCommit.toCommit { parents := c.parents, tagNames := c.tagNames, saved := sv, isMatch := c.isMatch,
+                                pins := c.pins, time := c.time }) with
+    | .ok x => some x
+    | .error _ => none        -- a build tag that needs the saved version of a commit that has none: refused
+
+/-- saved-number mode: every commit carries major.minor.patch in its version file -/
+def savedCommits (cs : List PCommit) : Option (List (Commit Pins)) :=
+  match cs.mapM (fun c => match c.saved with | [a, b, d] => some (⟨a, b, d, d⟩ : BN) | _ => none) with
+  | none => none
+  | some sv =>
+    some ((List.range cs.length).zip cs |>.map fun (i, c) =>
+      { parents := c.parents, tags := savedTags sv c.parents i, isMatch := c.isMatch, pins := c.pins, time := c.time })
 
 def parseList {α} (f : String → Option α) (s : String) : Option (List α) :=
   if s = "-" then some [] else (s.splitOn ";").mapM f
@@ -64,20 +97,23 @@ def parseRef (s : String) : Option (List Char × Nat) :=
     | _, _ => none
   | _ => none
 
-def parseRepo (remote : List Char) (s : String) : Option RepoIn :=
+def parseRepo (remote : List Char) (s : String) : Option (RepoIn × Bool) :=
   match s.splitOn "@" with
-  | [i, d, cs, rs] =>
+  | [i, "!"] => i.toNat?.map fun id => ({ id := id, deps := [], hist := { commits := [], remote := remote, refs := [] } }, false)
+  | [i, d, cs, rs, mode] =>
     match i.toNat?, parseNatList d, parseList parseCommit cs, parseList parseRef rs with
-    | some id, some deps, some commits, some refs =>
-      some { id := id, deps := deps, hist := { commits := commits, remote := remote, refs := refs } }
+    | some id, some deps, some pcs, some refs =>
+      let commits := if mode = "s" then savedCommits pcs else if mode = "t" then pcs.mapM tagCommit else none
+      commits.map fun cms => ({ id := id, deps := deps, hist := { commits := cms, remote := remote, refs := refs } }, true)
     | _, _, _, _ => none
   | _ => none
 
-def parseDeps (s : String) : Option (Nat × List Nat) :=
+def parseDeps (s : String) : Option ((Nat × List Nat) × Bool) :=
   match s.splitOn "@" with
+  | [i, "!"] => i.toNat?.map fun id => ((id, []), false)
   | [i, d] =>
     match i.toNat?, parseNatList d with
-    | some id, some deps => some (id, deps)
+    | some id, some deps => some ((id, deps), true)
     | _, _ => none
   | _ => none
 
@@ -109,14 +145,15 @@ def handle (line : String) : String :=
   match splitWs line with
   | "ord" :: rest =>
     match rest.mapM parseDeps with
-    | some ds =>
+    | some sup =>
+      let ds := keptRepos sup
       showExcept showNatList (sortRepos (ds.map (·.1)) (fun i => match ds.lookup i with | some d => d | none => []))
     | none => "bad-op"
   | "col" :: remote :: rest =>
     match parseCps remote with
     | some rm =>
       match rest.mapM (parseRepo rm) with
-      | some repos => showExcept showAll (analyse repos)
+      | some sup => showExcept showAll (analyse (keptRepos sup))
       | none => "bad-op"
     | none => "bad-op"
   | _ => "bad-op"
